@@ -32,13 +32,15 @@ def ddmin(items, test):
 
 
 class Shrinker:
-    def __init__(self, rec, clause, evaluate, budget=400):
-        """evaluate(rec) -> clause string of the violation found, or None."""
+    def __init__(self, rec, clause, evaluate, budget=400, choices_of=None):
+        """evaluate(rec) -> clause string of the violation found, or None.
+        choices_of(rec) -> {op id: [actor names chosen at each scheduling decision]} of that execution."""
         self.best = _clone(rec)
         self.clause = clause
         self.evaluate = evaluate
         self.budget = budget
         self.calls = 0
+        self.choices_of = choices_of
 
     def _fails(self, rec):
         if self.calls >= self.budget:
@@ -67,7 +69,55 @@ class Shrinker:
             self.shrink_sizes()
             if json.dumps(self.best, sort_keys=True) == before:
                 break
+        self.budget += 150
+        self.explicit_schedule()
         return self.best
+
+    def explicit_schedule(self):
+        """Replace the seeded scheduling policy by the explicit list of choices it made, then minimise that
+        list: drop it per operation, cut it to the shortest prefix that still fails (past the prefix the
+        running actor simply continues), and turn single choices into "=" (stay on the current actor)."""
+        if self.choices_of is None:
+            return
+        ch = self.choices_of(self.best)
+        if not ch or not any(ch.values()):
+            return
+        c = _clone(self.best)
+        c["sched_choices"] = {k: list(v) for k, v in ch.items()}
+        if not self._try(c):
+            return
+        for op in sorted(self.best["sched_choices"], key=str):
+            lst = self.best["sched_choices"][op]
+            if not lst:
+                continue
+            c = _clone(self.best)
+            c["sched_choices"][op] = []
+            if self._try(c):
+                continue
+            lo, hi = 0, len(lst)  # shortest failing prefix length in (lo, hi]
+            while hi - lo > 1:
+                mid = (lo + hi) // 2
+                c = _clone(self.best)
+                c["sched_choices"][op] = lst[:mid]
+                if self._fails(c):
+                    hi = mid
+                else:
+                    lo = mid
+            if hi < len(lst):
+                c = _clone(self.best)
+                c["sched_choices"][op] = lst[:hi]
+                self._try(c)
+            lst = self.best["sched_choices"][op]
+            for i in range(len(lst)):
+                if self.best["sched_choices"][op][i] == "=":
+                    continue
+                c = _clone(self.best)
+                c["sched_choices"][op][i] = "="
+                self._try(c)
+        # ops without decisions need no entry
+        c = _clone(self.best)
+        c["sched_choices"] = {k: v for k, v in c["sched_choices"].items() if v}
+        self.best = c
 
     # ------------------------------------------------------------- passes
     def drop_crash_and_faults(self):
